@@ -42,6 +42,38 @@ CHECKS = {
         text="Lean theorems: fuel monotonicity and determinism of the fuelled optimizer model (a result, once produced, is the result for every larger fuel), one-step termination on atoms; NOT proved: termination for every tree and the polynomial bound (stated in DESIGN.md). Tie and observation: the model never runs out of fuel and predicate.optimize always returns a predicate on the C01-C03 term spaces and on random trees of 60-400 nodes (structural agreement on every case); optimize* call counts on six growing families (at most quadratic; a measurement); purity by deep structural snapshots and fresh-copy comparison over random sequences of the eight analysis functions on one shared object.",
         note=TB + "PARTIAL: the unbounded termination theorem and the polynomial bound are not proved; purity is decided by the correspondence (the Lean functions are pure by construction), not by a theorem of substance.",
         tech="Lean 4 proof (fuel monotonicity/determinism) + differential correspondence + call-count measurement + snapshot histories", ref="§7 C12, §10"),
+    "C07": dict(
+        text="Lean theorems about the reference effectful evaluator evalE (outcome x ordered list of calls to instrumented leaves), for every probe table, tree and value: value laws for & | ^ ~, trace laws (left first; right only when the left does not decide; ^ always both), C07_guard_protects (left False => result False and the right operand is not called; dual for |), all_p/any_p = for-all/exists cut at the first counter-example/witness and True/False on an empty collection, comp_p = p(f(x)) with f called once first, tee_p = one call and True; C07_trace_is_traversal (induction over all trees) and C07_pure_agrees. Tie: the real classes with instrumented fn_p/comp_p/tee_p/property leaves answering True/False/raise by table - return value or exception class AND recorded call sequence == evalE and == a plain-Python reading: all trees <= 4 nodes, sampled/all trees of 5 nodes, random trees of 6-9 nodes, directed guard and 'of'-form trees (150 276 quick / 970 174 thorough cases).",
+        note=TB + "These theorems are laws of the reference evaluator (they are what the property says); what ties them to the classes is the correspondence on each class's behaviour plus Python's compositional call semantics (trusted). Probes are deterministic functions of (id, argument) whose only effect is the log.",
+        tech="Lean 4 proof (case analysis on outcomes, induction on lists and on the tree) + differential correspondence of outcome and call trace + plain-Python oracle", ref="§7 C07, §4.1 M2, §10"),
+    "C08": dict(
+        text="Lean theorems about the reference semantics atomSem/evalPy of the built-in atoms over a concrete universe of Python values (none/bool/int/float-halves/str/list/tuple/set/dict/opaque objects), for every parameter and value: opposites complementary and defined together, eq = Python == across the numeric tower, in = membership up to == with the hashability TypeError, ge/gt/le/lt = four readings of one three-way comparison (cross-type raises TypeError), the four ranges = conjunction of the one-sided atoms with their strictness, exact behaviour at the bounds, subset family = inclusion up to == with real-subset differing exactly at equality, isinstance lattice, empty/truthy/has_length/has_key, literal regex = prefix, ASCII str tests, tuple_of/set_of/list_of/iterable_of. Tie: every exported atom constructor on a parameter grid x inputs (57 420 quick / 905 576 thorough): implementation outcome incl. exception class == evalPy, and == an independent plain-Python definition of the named relation; plus the opposite/nesting laws on the real objects.",
+        note=TB + "The model is a specification; the theorems are laws of it, their force for the classes is the correspondence. Not modelled (implementation vs plain Python only): ipaddress properties (PropertyPredicate is modelled as the wrapper), Unicode classification, non-literal regular expressions, datetime/UUID/complex/range/frozenset/bytes/inf/nan/big-int inputs. Floats are multiples of 1/2; model strings are ASCII.",
+        tech="Lean 4 proof (case analysis, nested induction over values for ==/order lemmas) + differential correspondence (evalpy) + plain-Python oracle", ref="§7 C08, §4.1 M2, §10"),
+    "C14": dict(
+        text="Lean theorems about an executable model of the lexer and of a reference precedence parser: the model accepts exactly the expression language (C14_accepts_iff_language: soundness, completeness for the ambiguous grammar by re-bracketing, a scanner characterisation, rejection lemmas); its tree is a faithful reading (C14_reading_inorder, C14_not_scope, C14_group_subtree, C14_parse_faithful); every tree has an accepted text (C14_parse_print_text); the lexer returns ts exactly for the texts that spell ts (C14_lex_iff_spells); 59 theorems. Lark's Earley engine is NOT modelled: the claim about parse_expression is that on every run it agrees with the model on accept/reject and, for each accepted text, that the Lean-defined relation isReading && isTight (proved to decide Reading and to imply Faithful) holds of the tree the implementation actually returned - on all in-language token sequences up to 7/9 tokens in three spacings, mutants, malformed and random texts, all fully parenthesised trees <= 6/7 nodes and random long expressions (46 606 / 439 605 texts).",
+        note=TB + "Observed, not modelled: Lark's Earley parser, dynamic lexer and ambiguity resolution (lark 1.3.1). The model pins the precedence Lark produces (| < & < ^ < ~) and is compared modulo re-association of equal operators, because Lark does not bracket chains uniformly and the property leaves this open. 'Parse error' = lark UnexpectedInput/ParseError/LexError; VisitError is a failure. Inputs beyond the bound are not covered ('~'*300+'a' raises RecursionError).",
+        tech="Lean 4 proof (induction on derivations / fuel; precedence-parser completeness, grammar re-association, matcher calculus) + bounded-exhaustive differential correspondence with evaluation of the Lean-defined relation on the implementation's output", ref="§7 C14, §4.1 M4, §10"),
+    "C15": dict(
+        text="Lean theorems about a heap model of truth_table (variable objects ObjId -> Bool, var leaves as pointers, the lazy generator protocol): rows n read as binary numbers are 0..2^n-1 in order (ascending, duplicate-free, complete), names strictly ascending and exactly those occurring, C15_table_spec for every initial heap and every aliasing, C15_history_independent, C15_interleave for any schedule over any family of generators sharing objects, rejection of foreign nodes as ValueError at the first next with nothing written; 22 theorems. Tie: every next() answer and the final .v of every object compared with the model call by call (3 025 exhaustive trees, 5 000 histories with shared objects and interleavings, 1 500 malformed histories; ~86 000 next calls quick / 1.33 M thorough), and independently with a Python rendering of the property's own table.",
+        note=TB + "Trusted: Python str order equals Lean String order (exercised with mixed-case and non-ASCII names); sorted(gray_product(..)) is exercised, not modelled; names and trees are immutable while a generator is live.",
+        tech="Lean 4 proof (heap-independence lemma next_stateAt, induction over schedules) + differential correspondence of generator histories", ref="§7 C15, §4.1 M3"),
+    "C16": dict(
+        text="Lean theorems over a model of the resolution algorithm as written (frame walk, scan order, candidate test, tree search, cached_property) and evaluation through resolved references, for all nested values, frame stacks and call histories: whenever the reference resolves to its definition P(x) = spec base x (C16_denotes, C16_denotes_sequence); an unresolvable reference raises ValueError; under the repaired code the reference resolves to P exactly when P is the first (last for root_p) binding, in the innermost frame with a related binding, in which the node object itself occurs (C16_resolves_iff, C16_fixed_any_scope); is_json_p with its references bound at import accepts exactly JSON-shaped data from any caller; _partial forms and decide-witnesses for the pinned variants; 22 theorems. Tie: ~350 quick / 5 000 thorough generated Python scope configurations (module/function level, siblings, other modules as callers, call depth, order of first calls) and is_json_p caller sequences executed on the real library, every outcome compared with the compiled model; predicted frame layouts compared with observed f_locals.",
+        note=TB + "CPython 3.12 frame semantics are not in the Lean model: requests carry the user frames as ordered lists predicted by the harness and compared with observed f_locals on every run; inspect.currentframe, f_back, cached_property are trusted. String atoms are one-character strings; ~, ^, any_p are outside the AST (predicate_in_predicate_tree does not descend into them). Three defects were repaired in /repo (see known_findings.json).",
+        tech="Lean 4 proof (induction on fuel and nesting depth) + differential execution on generated Python source", ref="§7 C16, §4.1 M7"),
+    "C17": dict(
+        text="Lean theorems over an arm-for-arm model of format_dot.py: a decoder reading only a cluster's node table and non-dashed edges returns the predicate (C17_decode_render, incl. comp and dict_of); ids are k..k+n-1, so clusters sharing the counter are disjoint; nodes are the pre-order sub-predicates plus one kv per dict_of pair, with n-1 tree edges; labels parse back to operator and constants; range labels show the lower bound left, the upper right, with the sign of each end, and that reading equals eval; failure is only by ValueError and success exactly on the supported kinds; 20 theorems. Tie: model toDot vs the parsed Digraph.body (ids, names, labels, solid/key/value edges in order) on ~23 600 quick / ~159 000 thorough trees x show_optimized off/on, plus a direct walk of the real output with the real predicate and a label oracle written from the property text.",
+        note=TB + "Dashed (self-reference) edges are judged on the real output only (they must leave reference nodes and stay in the cluster): which reference resolves where depends on object identity, which the tree model does not carry. Set iteration order, graphviz quoting and rendering are not modelled. NOT proved: that optimize maps supported trees to supported trees (C17_toDot_optimized_total_partial takes it as a hypothesis; exercised on every show_optimized case). Four defects were repaired in /repo (see known_findings.json).",
+        tech="Lean 4 proof (functional induction over render, decoder with fuel) + differential correspondence (dot) + direct walk/oracle on the real Digraph.body", ref="§7 C17, §4.1 M5"),
+    "C18": dict(
+        text="Lean theorems about toJson over the Pred type of the optimizer model: exactly one key naming the kind, C18_shape (nesting of the JSON = nesting of the predicate through left/right and 'predicate' in operand order), variable name, ne constant, fn name, tee, the 'unknown' placeholder and only that, serialisable iff every reachable ne constant is; 13 theorems. Tie: json, shape and serialisability compared with the model and json.dumps run on 46 530 quick / 240 838 thorough cases over 212 atoms (every exported constructor, 12 kinds of callable, awkward names and constants); the property is also judged directly on the real objects.",
+        note=TB + "fnName is supplied by the harness rather than interpreted by the model; json.dumps is exercised, not modelled; dictionaries are compared as unordered maps (the property does not constrain key order). One defect was repaired in /repo (to_json of function atoms over built-ins).",
+        tech="Lean 4 proof (structural induction) + differential correspondence (json)", ref="§7 C18, §4.1 M5"),
+    "C19": dict(
+        text="Lean theorems C19_yields_separate / _at (every member, at every position, of the stream of the construct model - any example lists incl. empty, overlapping, duplicated; any meaning of the 14 type tests; unbounded rounds and limit - is True on all of true_set and False on all of false_set), C19_first_round / _head / _each (if an initial type test separates, the first yield is a separating initial test and every separating initial test is at a position < 14), C19_stream_eq_filter, C19_empty_sets, C19_indistinguishable; 25 theorems. Tie: first 50/400 yields of the real construct() on 600/5 000 pairs of mixed-type example lists compared in order with the model (rounds 0-1 fully, a prefix of round 2), create_mutations and gray_product order vs the model; every real yield called on every example.",
+        note=TB + "Example values reach the model as type tag + payload (isinstance/truthiness of the 15 pool values are exercised); == on predicates is the model's Pred.beq (C06). Rounds >= 3 of the real generator are unreachable in practice; the theorems cover all rounds. Every pull runs under a line-event budget.",
+        tech="Lean 4 proof (list lemmas, induction on rounds) + differential correspondence of the stream, of create_mutations and of gray_product", ref="§7 C19, §4.1 M7"),
 }
 
 PENDING = {}
@@ -70,7 +102,7 @@ def main():
             na.append({"property_id": pid, "reason": PENDING.get(pid, "check not built yet at this commit (work in progress; see DESIGN.md §7 for the plan)")})
     man = {
         "version": 1,
-        "setup_cmd": "cd lean && lake build PyPred driver",
+        "setup_cmd": "cd lean && lake build PyPred driver driver_tt driver_pyval driver_construct driver_scope driver_parser driver_dot",
         "hooks": {
             "guard": "PY_PREDICATE_VERIF",
             "enable": "no source hooks are needed: the checks import /repo in-process and instrument from outside (sys.settrace, monkey-patching inside the harness process); the variable is set by ./check for future use",
